@@ -86,8 +86,10 @@ RefCodecSound(m) ==
   /\ WellFormedFor(w, m)
 
 \* C13: one unsupported payload inserted at position pos of the chain of m
-InsertVector(m, pos, t, crit, body) ==
-  LET w  == PlainMsg(Norm(m))
+\* sc = 1: the implemented payloads of the base message carry the critical flag themselves (it must be ignored on them)
+WithCrit(w, sc) == [w EXCEPT !.payloads = [i \in 1..Len(w.payloads) |-> [w.payloads[i] EXCEPT !.crit = sc]]]
+InsertVector(m, pos, t, crit, body, sc) ==
+  LET w  == WithCrit(PlainMsg(Norm(m)), sc)
       w2 == [w EXCEPT !.payloads = InsertUnk(w.payloads, pos, t, crit, 0, body)]
       b  == EncMsgW(w2) IN
   Vector("insert", <<
@@ -97,8 +99,8 @@ InsertVector(m, pos, t, crit, body) ==
     Step("decode_chain", "C13", FALSE, [first |-> FirstOf(w2.payloads), wire |-> EncChainW(w2.payloads), caps |-> FALSE],
          IF crit = 1 THEN [panic |-> FALSE, capdiff |-> FALSE, err |-> TRUE]
                      ELSE [panic |-> FALSE, capdiff |-> FALSE, err |-> FALSE, payloads |-> NormChain(m.payloads)]) >>)
-InsertSound(m, pos, t, crit, body) ==
-  LET w  == PlainMsg(Norm(m))
+InsertSound(m, pos, t, crit, body, sc) ==
+  LET w  == WithCrit(PlainMsg(Norm(m)), sc)
       b  == EncMsgW([w EXCEPT !.payloads = InsertUnk(w.payloads, pos, t, crit, 0, body)])
       c  == Classify(b) IN
   IF crit = 1 THEN c.class = "critical" ELSE c.class = "value" /\ c.v = Norm(m)
